@@ -95,6 +95,27 @@ def check(ctx):
             v = n.value
             ok = (isinstance(v, ast.Constant) and v.value is False) or isinstance(v, ast.Compare) or (isinstance(v, ast.BoolOp) and isinstance(v.op, ast.And))
             ctx.ob("R1", f"{CC}:_check_cache_versions", f"`{short(n)}` is a comparison result or False (never constant True)", ok, key=f"ccv|return|{unparse(v)}", where=loc(n))
+    # the Python stamp must distinguish pre-releases: the cache *file name* (sys.implementation.cache_tag)
+    # is the same for 3.x.y a/b/rc/final builds, whose bytecode may differ
+    pm = ctx.repo.module("xonsh/platform.py")
+    pv = pm.func("PYTHON_VERSION_INFO_BYTES") if pm.has("PYTHON_VERSION_INFO_BYTES") else None
+    if pv is None:
+        raise AnchorMissing("xonsh/platform.py: PYTHON_VERSION_INFO_BYTES")
+    full = False
+    sliced = False
+    for r_ in [n for n in walk_local(pv) if isinstance(n, ast.Return)]:
+        for n in ast.walk(r_.value):
+            if isinstance(n, ast.Attribute) and unparse(n) == "sys.version_info":
+                par = parent(n)
+                if isinstance(par, (ast.Subscript, ast.Attribute)) and par.value is n:
+                    sliced = True  # sys.version_info[:3] / sys.version_info.major
+                else:
+                    full = True
+            if isinstance(n, ast.Name) and n.id == "PYTHON_VERSION_INFO":
+                sliced = True  # the three-component tuple
+            if isinstance(n, ast.Attribute) and unparse(n) in ("importlib.util.MAGIC_NUMBER",):
+                full = True
+    ctx.ob("R1", "xonsh/platform.py:PYTHON_VERSION_INFO_BYTES", "the Python stamp written into / compared with the cache header covers the complete sys.version_info (releaselevel and serial included), not only major.minor.micro", full and not sliced, key="python-stamp-truncated", where=loc(pv))
     marshal_dump = [c for c in calls_in(upd) if call_name(c) == "marshal.dump"]
     ctx.ob("R1", f"{CC}:update_cache", "the writer emits the header before marshal.dump", bool(marshal_dump) and bool(wr_calls) and all(w[0] < marshal_dump[0].lineno for w in wr_calls), key="writer-order")
 
@@ -350,7 +371,8 @@ META = {
     "technique": "static analysis: CFG guard dominance and handler reachability around marshal.load, def-use provenance of the executed code object and of the cache key",
     "text": "Decides on every path of codecache.py and its three users (main via run_*_with_cache, "
     "BaseShell.compile, the import hook): marshal.load only after a passed version check on the same handle and "
-    "inside a handler from which no return can say 'use the cache'; writer/reader header agreement; staleness "
+    "inside a handler from which no return can say 'use the cache'; writer/reader header agreement with a Python "
+    "stamp covering the whole sys.version_info; an injective escape code in the cache-file name; staleness "
     "comparison direction cache>=source; cache-file I/O inside an OSError handler; with the flag false the code "
     "object is used only after the compilation re-bound it; the code-cache key digests the whole text; and the "
     "context/mode inputs of the memoised compilation are constants or part of the key. Edit/run/touch "
